@@ -11,7 +11,8 @@ FAMILY = "C08"
 RULE = (
     "cases = histories of 5-50 operations (thorough 5-80) over 6 keys and a capacity of 1-96 bytes against the real Manager on "
     "/dev/shm: allocate(key, size) from any number of concurrent writers, finish-write, get, close-read, purge, complete the i-th "
-    "pending page-out/page-in job successfully or as a failure (lazy disk: any completion order), advance the virtual clock (ms, "
+    "pending page-out/page-in job successfully or as a failure (lazy disk: any completion order; a job can also be stopped "
+    "between its disk work and its completion callback), advance the virtual clock (ms, "
     "minutes, >15 min), persistent allocate/get (retry after completing all disk jobs), free-space query. After every operation: "
     "total size of resident datasets (model: written / readable / being paged out / being paged in) <= capacity, reported free space "
     "== capacity - that total, segment files on /dev/shm total <= capacity, oversize requests refused outright, requests larger than "
@@ -19,8 +20,9 @@ RULE = (
     "simultaneously in transitional states; distinct = fingerprint of the history"
 )
 ASSUMPTIONS = [
-    "disk jobs are atomic in the harness: their order relative to requests and to each other is generated, pre-emption inside a "
-    "callback is not; failures are realistic ones (spill directory not writable / spilled file gone)",
+    "a disk job has two atomic halves (the disk/segment work, then the completion callback into the Manager); requests may be "
+    "scheduled between the halves, finer pre-emption is not explored; failures are realistic ones (spill directory not writable / "
+    "spilled file gone)",
     "which datasets the store evicts is observed, not asserted (only that the choice is safe)",
     "real UDP transport and the 1024-byte datagram limit are out of scope here (codec: C17)",
 ]
@@ -50,8 +52,8 @@ def _tags(m) -> list[str]:
     s = m.stats
     t = []
     for k in ("failed_out", "failed_in", "purge_with_pending_pageout", "purge_during_read", "wait_then_granted", "read_after_cycle",
-              "stale_jobs", "pageouts_done", "pageins_done", "persistent_unsatisfied"):
-        if s[k]:
+              "stale_jobs", "pageouts_done", "pageins_done", "persistent_unsatisfied", "job_split"):
+        if s.get(k):
             t.append(k)
     if m.via_server:
         t.append("via_server_handler")
